@@ -605,6 +605,16 @@ def judge_c17(case, side, res):
         if not p or p[2] is None:
             continue                      # outside the property's type grammar
         v["relevant"] = True
+        # "with Boolean and String kept in declaration order"
+        for tg in (p[5] if len(p) > 5 else []):
+            if tg.startswith("order:"):
+                first, second = tg[6:].split("<")
+                ts = pe["type"] or []
+                if first in ts and second in ts and ts.index(first) > ts.index(second):
+                    v["ok"] = False
+                    v.pop("known", None)
+                    v["oracle_why"] = "prop %s: %s emits type %s, but %s is declared before %s" % (p[0], p[4], ts, first, second)
+                    return v
         kinds = ALL_KINDS if p[2] == "ANY" else (ALL_KINDS - {"null"}) if p[2] == "NONNULL" else set(p[2]) - {"undefined"}
         bad = sorted(k for k in kinds if not vue_accepts(pe["type"], k))
         if bad:
